@@ -2,6 +2,7 @@ package main
 
 import (
 	"bytes"
+	"os"
 	"context"
 	"os/exec"
 	"regexp"
@@ -38,6 +39,11 @@ func itoa(i int) string { return strconv.Itoa(i) }
 
 var solverSem = make(chan struct{}, 16)
 
+var (
+	dumpMu sync.Mutex
+	dumpN  int
+)
+
 func runOne(ctx context.Context, sp solverSpec, script string, timeoutS int) SolveResult {
 	start := time.Now()
 	argv := sp.argv(timeoutS)
@@ -47,6 +53,12 @@ func runOne(ctx context.Context, sp solverSpec, script string, timeoutS int) Sol
 	s := script
 	if strings.HasPrefix(sp.name, "cvc5") {
 		// cvc5 rejects (set-option :produce-models) after set-logic only; ours is before. ok.
+	}
+	if d := os.Getenv("GOVC_DUMP"); d != "" && sp.name == "z3-5.1.0" {
+		dumpMu.Lock()
+		dumpN++
+		_ = os.WriteFile(d+"/q"+itoa(dumpN)+".smt2", []byte(s), 0o644)
+		dumpMu.Unlock()
 	}
 	cmd.Stdin = strings.NewReader(s)
 	var out bytes.Buffer
